@@ -283,6 +283,20 @@ func Weave(dir string) (*Report, error) {
 				if !ok {
 					return true
 				}
+				if lockFn, isLock := map[string]string{"Lock": "MuLock", "Unlock": "MuUnlock", "RLock": "MuRLock", "RUnlock": "MuRUnlock"}[sel.Sel.Name]; isLock && len(x.Args) == 0 {
+					if t := info.TypeOf(sel.X); t != nil {
+						ts := types.TypeString(t, nil)
+						switch ts {
+						case "sync.Mutex", "sync.RWMutex":
+							add(edit{off(x.Pos()), off(sel.X.Pos()), "simrt." + lockFn + "(&", "lock:" + sel.Sel.Name}, x.Pos())
+							leaves = append(leaves, edit{off(sel.X.End()), off(x.End()), ")", ""})
+						case "*sync.Mutex", "*sync.RWMutex":
+							add(edit{off(x.Pos()), off(sel.X.Pos()), "simrt." + lockFn + "(", "lock:" + sel.Sel.Name}, x.Pos())
+							leaves = append(leaves, edit{off(sel.X.End()), off(x.End()), ")", ""})
+						}
+					}
+					return true
+				}
 				if sel.Sel.Name != "MapKeys" && sel.Sel.Name != "MapRange" {
 					return true
 				}
